@@ -252,6 +252,19 @@ Definition plan (r : list target) (req : list str) : list target :=
   let need := closure r req in filter (fun t => mem (t_label t) need) r.
 
 (* ------------------------------------------------------------------------------------------ *)
+(* vocabulary of the property statement *)
+
+(* Trust: a record found on outputs that are already in plz-out tells the truth about them
+   (holds for the empty plz-out, and for whatever earlier builds of the same tree left behind) *)
+Definition trusted (key : Type) (H : target -> list val -> key) (act : target -> list val -> option val)
+                   (r : list target) (s : store key) : Prop :=
+  forall t k v, In t r -> s (t_label t) = Some (k, v) -> forall ins, H t ins = k -> act t ins = Some v.
+
+(* every invocation works on targets of the repository, and the clean build of each of them succeeds *)
+Definition requests_ok (act : target -> list val -> option val) (r : list target) (todos : list (list target)) : Prop :=
+  forall ts t, In ts todos -> In t ts -> In t r /\ cleanv act r (t_label t) <> None.
+
+(* ------------------------------------------------------------------------------------------ *)
 (* the instance used by the correspondence check: commands of the closed language; the hash of
    the inputs is modelled by the inputs themselves *)
 
